@@ -30,9 +30,9 @@ Chars(s) == [i \in 1..Len(s) |-> SubSeq(s, i, i)]
 \* state: [mode : "code" | "sq" | "dq" | "bt", esc : BOOLEAN, buf : STRING, toks : Seq(token)]
 \* token: [t : "id" | "num" | "param" | "str" | "p" | "err", s : STRING]
 Lex0 == [mode |-> "code", esc |-> FALSE, buf |-> "", toks |-> <<>>]
-Word(buf) == IF SubSeq(buf, 1, 1) = "$" THEN [t |-> "param", s |-> SubSeq(buf, 2, Len(buf))]
-             ELSE IF \A i \in 1..Len(buf) : SubSeq(buf, i, i) \in Digit THEN [t |-> "num", s |-> buf]
-             ELSE [t |-> "id", s |-> buf]
+Word(buf) == IF SubSeq(buf, 1, 1) = "$" THEN [t |-> "param", s |-> SubSeq(buf, 2, Len(buf)), c |-> ""]
+             ELSE IF \A i \in 1..Len(buf) : SubSeq(buf, i, i) \in Digit THEN [t |-> "num", s |-> buf, c |-> ""]
+             ELSE [t |-> "id", s |-> buf, c |-> ""]
 Flush(st) == IF st.buf = "" THEN st ELSE [st EXCEPT !.buf = "", !.toks = Append(@, Word(st.buf))]
 Quote == [sq |-> "'", dq |-> "\"", bt |-> "`"]
 LexStep(st, c) ==
@@ -42,13 +42,15 @@ LexStep(st, c) ==
         ELSE IF c = "\"" THEN [Flush(st) EXCEPT !.mode = "dq"]
         ELSE IF c = "`" THEN [Flush(st) EXCEPT !.mode = "bt"]
         ELSE IF c \in IdChar \/ (c = "$" /\ st.buf = "") THEN [st EXCEPT !.buf = @ \o c]
-        ELSE [Flush(st) EXCEPT !.toks = Append(@, [t |-> "p", s |-> c])]
-    ELSE IF st.esc THEN [st EXCEPT !.esc = FALSE]
+        ELSE [Flush(st) EXCEPT !.toks = Append(@, [t |-> "p", s |-> c, c |-> ""])]
+    \* inside a literal the DECODED content is collected in buf (an escaped character stands for itself)
+    ELSE IF st.esc THEN [st EXCEPT !.esc = FALSE, !.buf = @ \o c]
     ELSE IF c = "\\" /\ st.mode # "bt" THEN [st EXCEPT !.esc = TRUE]
-    ELSE IF c = Quote[st.mode] THEN [st EXCEPT !.mode = "code", !.toks = Append(@, [t |-> IF st.mode = "bt" THEN "id" ELSE "str", s |-> st.mode])]
-    ELSE st
-Lex(s) == LET f == Flush(FoldLeft(LexStep, Lex0, Chars(s))) IN
-          IF f.mode # "code" THEN Append(f.toks, [t |-> "err", s |-> "unterminated"]) ELSE f.toks
+    ELSE IF c = Quote[st.mode] THEN [st EXCEPT !.mode = "code", !.buf = "",
+                                               !.toks = Append(@, [t |-> IF st.mode = "bt" THEN "id" ELSE "str", s |-> st.mode, c |-> st.buf])]
+    ELSE [st EXCEPT !.buf = @ \o c]
+Lex(s) == LET g == FoldLeft(LexStep, Lex0, Chars(s)) f == IF g.mode = "code" THEN Flush(g) ELSE g IN
+          IF f.mode # "code" THEN Append(f.toks, [t |-> "err", s |-> "unterminated", c |-> ""]) ELSE f.toks
 
 \* ---------------------------------------------------------------- well-formedness on tokens
 P(tk, c) == tk.t = "p" /\ tk.s = c
@@ -67,7 +69,7 @@ TemplateLeftover(toks) ==
     \E i \in DOMAIN toks : /\ P(toks[i], "{") /\ i + 1 <= Len(toks)
                            /\ \/ P(toks[i + 1], "{")
                               \/ (i + 2 <= Len(toks) /\ toks[i + 1].t = "id" /\ P(toks[i + 2], "}"))
-At(toks, i) == IF i \in DOMAIN toks THEN toks[i] ELSE [t |-> "none", s |-> ""]
+At(toks, i) == IF i \in DOMAIN toks THEN toks[i] ELSE [t |-> "none", s |-> "", c |-> ""]
 \* a list / map separator with nothing on one side of it
 DanglingSeparator(toks) ==
     \E i \in DOMAIN toks : /\ P(toks[i], ",")
@@ -108,7 +110,10 @@ Referenced(toks) ==
         \/ (P(At(toks, j - 1), "(") /\ IsVar(At(toks, j - 2)) /\ P(At(toks, j + 1), ")"))}}                                  \* f(x)
 Unbound(toks) == Referenced(toks) \ Bound(toks)
 
-Defect(text, params) ==
+\* a literal whose decoded content is itself a statement (the inner query handed to an APOC procedure)
+IsStmt(x) == Len(x) > 6 /\ SubSeq(x, 1, 5) \in {"match", "MATCH", "Match"}
+NestedStmts(toks) == [i \in {j \in DOMAIN toks : toks[j].t = "str" /\ IsStmt(toks[j].c)} |-> toks[i].c]
+DefectFlat(text, params) ==
     LET toks == Lex(text) IN
     IF Unterminated(toks) THEN "unterminated literal"
     ELSE IF ~Balanced(toks) THEN "unbalanced brackets"
@@ -118,7 +123,14 @@ Defect(text, params) ==
     ELSE IF ~(ParamsUsed(toks) \subseteq params) THEN "parameter named but not supplied"
     ELSE IF Unbound(toks) # {} THEN "variable referenced but never bound"
     ELSE ""
-Shape(text) == LET toks == Lex(text) IN [i \in DOMAIN toks |-> IF toks[i].t \in {"str", "num"} THEN [t |-> toks[i].t, s |-> ""] ELSE toks[i]]
+Defect(text, params) ==
+    LET d == DefectFlat(text, params) n == NestedStmts(Lex(text)) IN
+    IF d # "" THEN d
+    ELSE IF \E i \in DOMAIN n : DefectFlat(n[i], params) # "" THEN "nested statement: " \o DefectFlat(n[CHOOSE i \in DOMAIN n : DefectFlat(n[i], params) # ""], params)
+    ELSE ""
+ShapeFlat(text) == LET toks == Lex(text) IN
+    [i \in DOMAIN toks |-> IF toks[i].t \in {"str", "num"} THEN [t |-> toks[i].t, s |-> "", c |-> ""] ELSE toks[i]]
+Shape(text) == LET n == NestedStmts(Lex(text)) IN [outer |-> ShapeFlat(text), nested |-> [i \in DOMAIN n |-> ShapeFlat(n[i])]]
 
 \* ---------------------------------------------------------------- history: one shape per operation instance
 Empty == [shape |-> <<>>]
